@@ -121,7 +121,7 @@ Lemma parse_functions_ser rest : forall pre acc fuel,
 Proof.
   induction rest as [|f0 r IH]; intros pre acc fuel Hf Hok Hsz; (destruct fuel as [|fuel]; [simpl in Hf; lia|]).
   - cbn [parse_functions ser_fns flat_map]. rewrite !app_nil_r in *.
-    rewrite fits_no by lia. reflexivity.
+    rewrite fits_no by lia. unfold loop_end. rewrite N.eqb_refl. reflexivity.
   - inversion Hok as [|? ? Hw Hr]; subst.
     assert (E : ser_fns (f0 :: r) = ser_fn f0 ++ ser_fns r) by reflexivity.
     rewrite E in *. clear E.
@@ -167,7 +167,7 @@ Lemma parse_debug_ser rest : forall pre acc fuel,
 Proof.
   induction rest as [|d0 r IH]; intros pre acc fuel Hf Hok Hsz; (destruct fuel as [|fuel]; [simpl in Hf; lia|]).
   - cbn [parse_debug ser_dbgs flat_map]. rewrite !app_nil_r in *.
-    rewrite fits_no by lia. reflexivity.
+    rewrite fits_no by lia. unfold loop_end. rewrite N.eqb_refl. reflexivity.
   - inversion Hok as [|? ? Hw Hr]; subst.
     assert (E : ser_dbgs (d0 :: r) = ser_dbg d0 ++ ser_dbgs r) by reflexivity.
     rewrite E in *. clear E.
@@ -231,7 +231,7 @@ Lemma parse_strings_ser rest : forall pre acc fuel,
 Proof.
   induction rest as [|s0 r IH]; intros pre acc fuel Hf Hnd Hsz; (destruct fuel as [|fuel]; [simpl in Hf; lia|]).
   - cbn [parse_strings ser_strings flat_map]. rewrite !app_nil_r in *.
-    rewrite fits_no by lia. reflexivity.
+    rewrite fits_no by lia. unfold loop_end. rewrite N.eqb_refl. reflexivity.
   - assert (E : ser_strings (s0 :: r) = le32 (len s0) ++ s0 ++ ser_strings r).
     { unfold ser_strings. cbn [flat_map]. unfold ser_string. rewrite <- app_assoc. reflexivity. }
     rewrite E in *. clear E.
@@ -241,7 +241,8 @@ Proof.
     cbn [parse_strings]. rewrite fits_yes by lia.
     assert (R : rd32 (pre ++ le32 (len s0) ++ s0 ++ ser_strings r) (len pre) = len s0).
     { unfold rd32, le32. apply rd_at; [apply to_nat_len|]. pow_norm. lia. }
-    rewrite R. rewrite (u32_small (len pre + 4)) by lia. rewrite fits_yes by lia.
+    rewrite R. rewrite (u32_small (len pre + 4)) by lia.
+    rewrite (proj2 (N.ltb_ge _ _)) by lia.
     assert (Sl : slice (pre ++ le32 (len s0) ++ s0 ++ ser_strings r) (len pre + 4) (len s0) = s0).
     { rewrite (app_assoc pre). apply slice_at; [|apply to_nat_len].
       rewrite app_length. unfold le32. rewrite le_bytes_length, N2Nat.inj_add, to_nat_len. reflexivity. }
@@ -286,7 +287,7 @@ Lemma parse_imports_ser rest : forall pre acc fuel,
 Proof.
   induction rest as [|i0 r IH]; intros pre acc fuel Hf Hok Hsz; (destruct fuel as [|fuel]; [simpl in Hf; lia|]).
   - cbn [parse_imports ser_imps flat_map]. rewrite !app_nil_r in *.
-    rewrite fits_no by lia. reflexivity.
+    rewrite fits_no by lia. unfold loop_end. rewrite N.eqb_refl. reflexivity.
   - inversion Hok as [|? ? Hw Hr]; subst.
     destruct (wf_imp_params i0 Hw) as [Ep [Lp Hpc]].
     assert (E : ser_imps (i0 :: r) = ser_fields (imp_fields i0) ++ im_params i0 ++ ser_imps r).
@@ -347,6 +348,7 @@ Fixpoint spec_load (size off : N) (ps : list (N * list byte)) (m : module) : loa
       if size <? off + len d then Refused else
       match apply_section ty d (len d) (add_sec m (ty, off, len d)) with
       | POk m2 => spec_load size (off + len d) r m2
+      | PBad => Refused
       | PCrash => Crash
       | PFuel => OutOfFuel
       end
@@ -409,10 +411,9 @@ Proof.
     - rewrite !app_length, !le_bytes_length. lia.
     - pow_norm. lia. }
   cbn [length load_sections]. rewrite R1, R2, R3. cbn [spec_load].
-  rewrite fits_small by (unfold off; lia).
   destruct (N.ltb_spec size (off + len d)) as [Hlt|Hge]; [reflexivity|].
   pose proof (PAY done ty d r E Hge) as P. fold off in P. rewrite P.
-  destruct (apply_section ty d (len d) (add_sec m (ty, off, len d))) as [m2| |]; try reflexivity.
+  destruct (apply_section ty d (len d) (add_sec m (ty, off, len d))) as [m2| | |]; try reflexivity.
   replace (len done + 1) with (len (done ++ [(ty, d)])) by (rewrite len_app; reflexivity).
   rewrite IH.
   - rewrite plen_app, plen_cons, plen_nil. f_equal. unfold off. lia.
@@ -809,7 +810,7 @@ Proof.
   - rewrite plen_cons in *. cbn [spec_load] in *.
     destruct (N.ltb_spec big (off + len d)); [lia|].
     destruct (N.ltb_spec n (off + len d)); [reflexivity|].
-    destruct (apply_section ty d (len d) (add_sec m (ty, off, len d))) as [m2| |]; try discriminate.
+    destruct (apply_section ty d (len d) (add_sec m (ty, off, len d))) as [m2| | |]; try discriminate.
     apply (IH big n (off + len d) m2 m' HB); lia.
 Qed.
 
@@ -942,10 +943,178 @@ Qed.
 
 Definition sec_checked (size : N) (e : sec_entry) : Prop := u32 (snd (fst e) + snd e) <= size.
 
-Lemma fits_checked e limit : fits e limit <> NoFit -> u32 e <= limit.
-Proof. unfold fits. destruct (N.ltb_spec limit (u32 e)) as [L|L]; [intros F; contradiction F; reflexivity|intros _; exact L]. Qed.
+(* ---------------------------------------------------------------- C12: a table section that loads consists of whole entries *)
+Lemma firstn_plus {A} (a b : nat) : forall l : list A, firstn (a + b) l = firstn a l ++ firstn b (skipn a l).
+Proof. induction a as [|a IH]; intros [|x l]; cbn; try reflexivity; [destruct b; reflexivity|]. f_equal. apply IH. Qed.
 
-Lemma load_sections_all n : forall i data size m m', load_sections n i data size m = Loaded m' ->
+Lemma skipn_add {A} (a b : nat) : forall l : list A, skipn (a + b) l = skipn b (skipn a l).
+Proof. induction a as [|a IH]; intros [|x l]; cbn; try reflexivity; [destruct b; reflexivity|apply IH]. Qed.
+Lemma skipn_to_nat_add data off w : skipn (N.to_nat (off + N.of_nat w)) data = skipn w (skipn (N.to_nat off) data) :> list byte.
+Proof. rewrite <- skipn_add. f_equal. lia. Qed.
+
+Definition sumw (ws : list nat) : nat := fold_right Nat.add 0%nat ws.
+
+(* re-writing the fields just read gives back the bytes they were read from *)
+Lemma ser_rd_fields ws : forall (data : list byte) off, bytes_ok data ->
+  (N.to_nat off + sumw ws <= length data)%nat ->
+  ser_fields (combine ws (rd_fields ws data off)) = firstn (sumw ws) (skipn (N.to_nat off) data).
+Proof.
+  induction ws as [|w r IH]; intros data off Hok Hlen; [reflexivity|].
+  cbn [rd_fields combine ser_fields flat_map fst snd sumw fold_right] in *. fold (sumw r) in *.
+  fold (ser_fields (combine r (rd_fields r data (off + N.of_nat w)))).
+  rewrite IH by (try exact Hok; lia). rewrite skipn_to_nat_add, firstn_plus. f_equal.
+  unfold rd. set (X := firstn w (skipn (N.to_nat off) data)).
+  assert (LX : length X = w) by (unfold X; rewrite firstn_length, skipn_length; lia).
+  rewrite <- LX at 1. apply le_bytes_of_le. unfold X. apply bytes_ok_firstn, bytes_ok_skipn, Hok.
+Qed.
+
+Lemma skipn_split (data : list byte) off k : skipn (N.to_nat off) data = firstn k (skipn (N.to_nat off) data) ++ skipn (N.to_nat (off + N.of_nat k)) data.
+Proof. rewrite skipn_to_nat_add. symmetry. apply firstn_skipn. Qed.
+
+Lemma fits_inv e limit : e < 2 ^ 32 \/ limit < 2 ^ 32 -> fits e limit = Fits -> e <= limit /\ u32 e = e.
+Proof.
+  intros B. unfold fits. destruct (N.ltb_spec limit (u32 e)); [discriminate|].
+  destruct (N.ltb_spec limit e); [discriminate|]. intros _. split; [assumption|]. apply u32_small. lia.
+Qed.
+
+Lemma loop_end_inv {A} pos sz (acc r : A) : loop_end pos sz acc = POk r -> pos = sz /\ r = acc.
+Proof. unfold loop_end. destruct (N.eqb_spec pos sz); [|discriminate]. intros H; inversion H. split; congruence. Qed.
+
+Lemma skipn_len_nil (sec : list byte) : skipn (N.to_nat (len sec)) sec = [].
+Proof. rewrite to_nat_len. apply skipn_all. Qed.
+
+Lemma parse_functions_complete fuel : forall sec pos acc r, bytes_ok sec -> len sec < 2 ^ 32 ->
+  parse_functions fuel sec (len sec) pos acc = POk r -> pos <= len sec ->
+  exists fs, skipn (N.to_nat pos) sec = ser_fns fs /\ r = acc ++ fs.
+Proof.
+  induction fuel as [|fuel IH]; intros sec pos acc r Hok Hlt H Hpos; [discriminate|].
+  cbn [parse_functions] in H.
+  destruct (fits (pos + 18) (len sec)) eqn:F; try discriminate.
+  - destruct (fits_inv _ _ (or_intror Hlt) F) as [Hle Hu]. rewrite Hu in H.
+    destruct (IH _ _ _ _ Hok Hlt H Hle) as (fs & E1 & E2).
+    eexists (_ :: fs). split; [|rewrite E2, <- app_assoc; reflexivity].
+    change (ser_fns (?e :: fs)) with (ser_fn e ++ ser_fns fs). rewrite <- E1.
+    rewrite (skipn_split sec pos 18). change (N.of_nat 18) with 18. f_equal.
+    pose proof (ser_rd_fields [4;2;4;4;2;2]%nat sec pos Hok) as R.
+    cbn [sumw fold_right Nat.add] in R. rewrite <- R by (unfold len in Hle; lia).
+    cbn [rd_fields combine]. change (N.of_nat 4) with 4. change (N.of_nat 2) with 2.
+    rewrite <- !N.add_assoc. change (4 + 2) with 6. change (4 + (2 + 4)) with 10. change (4 + (2 + (4 + 4))) with 14.
+    change (4 + (2 + (4 + (4 + 2)))) with 16.
+    rewrite ser_fn_fields. reflexivity.
+  - apply loop_end_inv in H. destruct H as [-> ->]. exists []. rewrite skipn_len_nil, app_nil_r. split; reflexivity.
+Qed.
+
+Lemma parse_debug_complete fuel : forall sec pos acc r, bytes_ok sec -> len sec < 2 ^ 32 ->
+  parse_debug fuel sec (len sec) pos acc = POk r -> pos <= len sec ->
+  exists ds, skipn (N.to_nat pos) sec = ser_dbgs ds /\ r = acc ++ ds.
+Proof.
+  induction fuel as [|fuel IH]; intros sec pos acc r Hok Hlt H Hpos; [discriminate|].
+  cbn [parse_debug] in H.
+  destruct (fits (pos + 8) (len sec)) eqn:F; try discriminate.
+  - destruct (fits_inv _ _ (or_intror Hlt) F) as [Hle Hu]. rewrite Hu in H.
+    destruct (IH _ _ _ _ Hok Hlt H Hle) as (ds & E1 & E2).
+    eexists (_ :: ds). split; [|rewrite E2, <- app_assoc; reflexivity].
+    change (ser_dbgs (?e :: ds)) with (ser_dbg e ++ ser_dbgs ds). rewrite <- E1.
+    rewrite (skipn_split sec pos 8). change (N.of_nat 8) with 8. f_equal.
+    pose proof (ser_rd_fields [4;4]%nat sec pos Hok) as R.
+    cbn [sumw fold_right Nat.add] in R. rewrite <- R by (unfold len in Hle; lia).
+    cbn [rd_fields combine]. change (N.of_nat 4) with 4.
+    rewrite ser_dbg_fields. reflexivity.
+  - apply loop_end_inv in H. destruct H as [-> ->]. exists []. rewrite skipn_len_nil, app_nil_r. split; reflexivity.
+Qed.
+
+Lemma parse_strings_complete fuel : forall sec pos acc r, bytes_ok sec -> len sec < 2 ^ 32 ->
+  parse_strings fuel sec (len sec) pos acc = POk r -> pos <= len sec ->
+  exists ss, skipn (N.to_nat pos) sec = ser_strings ss /\ r = fold_left add_string ss acc.
+Proof.
+  induction fuel as [|fuel IH]; intros sec pos acc r Hok Hlt H Hpos; [discriminate|].
+  cbn [parse_strings] in H.
+  destruct (fits (pos + 4) (len sec)) eqn:F; try discriminate.
+  - destruct (fits_inv _ _ (or_intror Hlt) F) as [Hle Hu]. rewrite Hu in H.
+    set (slen := rd32 sec pos) in *.
+    destruct (N.ltb_spec (len sec - (pos + 4)) slen) as [|Hs]; [discriminate|].
+    rewrite u32_small in H by lia.
+    destruct (IH _ _ _ _ Hok Hlt H ltac:(lia)) as (ss & E1 & E2).
+    exists (slice sec (pos + 4) slen :: ss). split; [|exact E2].
+    assert (Lsl : length (slice sec (pos + 4) slen) = N.to_nat slen).
+    { unfold slice. rewrite firstn_length, skipn_length. unfold len in *. lia. }
+    change (ser_strings (?e :: ss)) with (ser_string e ++ ser_strings ss). unfold ser_string.
+    rewrite <- E1, <- app_assoc.
+    rewrite (skipn_split sec pos 4). change (N.of_nat 4) with 4. f_equal.
+    + pose proof (ser_rd_fields [4]%nat sec pos Hok) as R.
+      cbn [sumw fold_right Nat.add] in R. rewrite <- R by (unfold len in Hle; lia).
+      cbn [rd_fields combine ser_fields flat_map fst snd]. rewrite app_nil_r. unfold le32. f_equal.
+      unfold len. rewrite Lsl, N2Nat.id. reflexivity.
+    + replace (pos + 4 + slen) with (pos + 4 + N.of_nat (N.to_nat slen)) by lia.
+      rewrite (skipn_split sec (pos + 4) (N.to_nat slen)). reflexivity.
+  - apply loop_end_inv in H. destruct H as [-> ->]. exists []. rewrite skipn_len_nil. split; reflexivity.
+Qed.
+
+Lemma parse_imports_complete fuel : forall sec pos acc r, bytes_ok sec -> len sec < 2 ^ 32 ->
+  parse_imports fuel sec (len sec) pos acc = POk r -> pos <= len sec ->
+  exists is, skipn (N.to_nat pos) sec = ser_imps is /\ r = acc ++ is /\ Forall (fun i => len (im_params i) = im_pc i) is.
+Proof.
+  induction fuel as [|fuel IH]; intros sec pos acc r Hok Hlt H Hpos; [discriminate|].
+  cbn [parse_imports] in H.
+  destruct (fits (pos + 11) (len sec)) eqn:F; try discriminate.
+  - destruct (fits_inv _ _ (or_intror Hlt) F) as [Hle Hu]. rewrite Hu in H.
+    set (pc := rd16 sec (pos + 8)) in *.
+    destruct (fits (pos + 11 + pc) (len sec)) eqn:F2; try discriminate.
+    destruct (fits_inv _ _ (or_intror Hlt) F2) as [Hle2 Hu2]. rewrite Hu2 in H.
+    destruct (IH _ _ _ _ Hok Hlt H Hle2) as (is & E1 & E2 & E3).
+    assert (Lsl : length (slice sec (pos + 11) pc) = N.to_nat pc).
+    { unfold slice. rewrite firstn_length, skipn_length. unfold len in *. lia. }
+    eexists (_ :: is). split; [|split; [rewrite E2, <- app_assoc; reflexivity|]].
+    + change (ser_imps (?e :: is)) with (ser_imp e ++ ser_imps is). rewrite ser_imp_fields. cbn [im_pc im_params imp_fields im_mod im_fn im_ret].
+      rewrite <- E1, <- app_assoc.
+      rewrite (skipn_split sec pos 11). change (N.of_nat 11) with 11. f_equal.
+      * pose proof (ser_rd_fields [4;4;2;1]%nat sec pos Hok) as R.
+        cbn [sumw fold_right Nat.add] in R. rewrite <- R by (unfold len in Hle; lia).
+        cbn [rd_fields combine]. change (N.of_nat 4) with 4. change (N.of_nat 2) with 2.
+        rewrite <- !N.add_assoc. change (4 + 4) with 8. change (4 + (4 + 2)) with 10. reflexivity.
+      * replace (pos + 11 + pc) with (pos + 11 + N.of_nat (N.to_nat pc)) by lia.
+        rewrite (skipn_split sec (pos + 11) (N.to_nat pc)). f_equal.
+        fold pc.
+        assert (SP : ser_params pc (slice sec (pos + 11) pc) = slice sec (pos + 11) pc).
+        { unfold ser_params. destruct (slice sec (pos + 11) pc) eqn:Es; [|reflexivity].
+          simpl in Lsl. replace (N.to_nat pc) with 0%nat by lia. reflexivity. }
+        rewrite SP. reflexivity.
+    + constructor; [|exact E3]. cbn [im_params im_pc]. fold pc. unfold len. rewrite Lsl. apply N2Nat.id.
+  - apply loop_end_inv in H. destruct H as [-> ->]. exists []. rewrite skipn_len_nil, app_nil_r. repeat split. constructor.
+Qed.
+
+(* what "complete" means for the bytes of one section, by section type *)
+Definition table_complete (ty : N) (sec : list byte) : Prop :=
+  if ty =? SEC_STRINGS then exists ss, sec = ser_strings ss
+  else if ty =? SEC_FUNCTIONS then exists fs, sec = ser_fns fs
+  else if ty =? SEC_DEBUG then exists ds, sec = ser_dbgs ds
+  else if ty =? SEC_IMPORTS then exists is, sec = ser_imps is /\ Forall (fun i => len (im_params i) = im_pc i) is
+  else True.
+(* the section lies inside the file and is a sequence of whole entries with nothing left over *)
+Definition section_complete (data : list byte) (e : sec_entry) : Prop :=
+  snd (fst e) + snd e <= len data /\ table_complete (fst (fst e)) (slice data (snd (fst e)) (snd e)).
+
+Lemma apply_section_complete ty sec m m2 : bytes_ok sec -> len sec < 2 ^ 32 ->
+  apply_section ty sec (len sec) m = POk m2 -> table_complete ty sec.
+Proof.
+  intros Hok Hlt. unfold apply_section, table_complete.
+  destruct (N.eqb_spec ty SEC_STRINGS) as [E|_].
+  { destruct (parse_strings _ _ _ _ _) eqn:P; cbn [pmap]; try discriminate. intros _.
+    destruct (parse_strings_complete _ _ _ _ _ Hok Hlt P (N.le_0_l _)) as (ss & Es & _). exists ss. exact Es. }
+  destruct (N.eqb_spec ty SEC_CODE) as [E|_]; [subst ty; intros _; exact I|].
+  destruct (N.eqb_spec ty SEC_FUNCTIONS) as [E|_].
+  { destruct (parse_functions _ _ _ _ _) eqn:P; cbn [pmap]; try discriminate. intros _.
+    destruct (parse_functions_complete _ _ _ _ _ Hok Hlt P (N.le_0_l _)) as (fs & Es & _). exists fs. exact Es. }
+  destruct (N.eqb_spec ty SEC_DEBUG) as [E|_].
+  { destruct (parse_debug _ _ _ _ _) eqn:P; cbn [pmap]; try discriminate. intros _.
+    destruct (parse_debug_complete _ _ _ _ _ Hok Hlt P (N.le_0_l _)) as (ds & Es & _). exists ds. exact Es. }
+  destruct (N.eqb_spec ty SEC_IMPORTS) as [E|_].
+  { destruct (parse_imports _ _ _ _ _) eqn:P; cbn [pmap]; try discriminate. intros _.
+    destruct (parse_imports_complete _ _ _ _ _ Hok Hlt P (N.le_0_l _)) as (is & Es & _ & Ef). exists is. split; assumption. }
+  intros _. exact I.
+Qed.
+
+Lemma load_sections_basic n : forall i data size m m', load_sections n i data size m = Loaded m' ->
   m_hdr m' = m_hdr m /\ exists es, m_secs m' = m_secs m ++ es /\ length es = n /\ Forall (sec_checked size) es.
 Proof.
   induction n as [|n IH]; intros i data size m m' H.
@@ -953,19 +1122,54 @@ Proof.
   - cbn [load_sections] in H.
     set (ty := rd32 data (32 + i * 12)) in *. set (off := rd32 data (32 + i * 12 + 4)) in *.
     set (sz := rd32 data (32 + i * 12 + 8)) in *.
-    assert (Hck : fits (off + sz) size <> NoFit -> sec_checked size (ty, off, sz)) by (intros F; apply fits_checked; exact F).
-    destruct (fits (off + sz) size) eqn:F; try discriminate.
-    + destruct (apply_section ty (slice data off sz) sz (add_sec m (ty, off, sz))) as [m2| |] eqn:A; try discriminate.
-      destruct (apply_section_keeps _ _ _ _ _ A) as [K1 K2].
-      destruct (IH _ _ _ _ _ H) as [H1 (es & H2 & H3 & H4)].
-      split; [rewrite H1, K1; reflexivity|].
-      exists ((ty, off, sz) :: es). rewrite H2, K2. cbn [add_sec m_secs]. rewrite <- app_assoc.
-      repeat split; [simpl; lia|]. constructor; [apply Hck; discriminate|exact H4].
-    + destruct (known_type ty); try discriminate.
-      destruct (IH _ _ _ _ _ H) as [H1 (es & H2 & H3 & H4)].
-      split; [rewrite H1; reflexivity|].
-      exists ((ty, off, sz) :: es). rewrite H2. cbn [add_sec m_secs]. rewrite <- app_assoc.
-      repeat split; [simpl; lia|]. constructor; [apply Hck; discriminate|exact H4].
+    destruct (N.ltb_spec size (off + sz)) as [|Hfit]; [discriminate|].
+    destruct (apply_section ty (slice data off sz) sz (add_sec m (ty, off, sz))) as [m2| | |] eqn:A; try discriminate.
+    destruct (apply_section_keeps _ _ _ _ _ A) as [K1 K2].
+    destruct (IH _ _ _ _ _ H) as [H1 (es & H2 & H3 & H4)].
+    split; [rewrite H1, K1; reflexivity|].
+    exists ((ty, off, sz) :: es). rewrite H2, K2. cbn [add_sec m_secs]. rewrite <- app_assoc.
+    repeat split; [simpl; lia|]. constructor; [|exact H4].
+    unfold sec_checked, u32. cbn [fst snd]. assert (U : (off + sz) mod 4294967296 <= off + sz) by (apply N.mod_le; discriminate). lia.
+Qed.
+
+Lemma rd32_lt (data : list byte) off : bytes_ok data -> rd32 data off < 2 ^ 32.
+Proof.
+  intros Hok. unfold rd32, rd. set (X := firstn 4 (skipn (N.to_nat off) data)).
+  assert (B : of_le X < 256 ^ N.of_nat (length X)) by (apply of_le_bound; unfold X; apply bytes_ok_firstn, bytes_ok_skipn, Hok).
+  apply N.lt_le_trans with (256 ^ N.of_nat (length X)); [exact B|].
+  change (2 ^ 32) with (256 ^ 4). apply N.pow_le_mono_r; [discriminate|].
+  unfold X. rewrite firstn_length. lia.
+Qed.
+
+Lemma slice_len (data : list byte) off sz : off + sz <= len data -> len (slice data off sz) = sz.
+Proof. intros H. unfold len, slice in *. rewrite firstn_length, skipn_length. lia. Qed.
+
+Lemma u32_le x : u32 x <= x.
+Proof. unfold u32. apply N.mod_le. discriminate. Qed.
+
+Lemma load_sections_all n : forall i data size m m', bytes_ok data -> size = len data ->
+  load_sections n i data size m = Loaded m' ->
+  m_hdr m' = m_hdr m /\ exists es, m_secs m' = m_secs m ++ es /\ length es = n /\
+  Forall (sec_checked size) es /\ Forall (section_complete data) es.
+Proof.
+  induction n as [|n IH]; intros i data size m m' Hok Hsz H.
+  - inversion H. split; [reflexivity|]. exists []. rewrite app_nil_r. repeat split; constructor.
+  - cbn [load_sections] in H.
+    set (ty := rd32 data (32 + i * 12)) in *. set (off := rd32 data (32 + i * 12 + 4)) in *.
+    set (sz := rd32 data (32 + i * 12 + 8)) in *.
+    destruct (N.ltb_spec size (off + sz)) as [|Hfit]; [discriminate|].
+    destruct (apply_section ty (slice data off sz) sz (add_sec m (ty, off, sz))) as [m2| | |] eqn:A; try discriminate.
+    destruct (apply_section_keeps _ _ _ _ _ A) as [K1 K2].
+    destruct (IH _ _ _ _ _ Hok Hsz H) as [H1 (es & H2 & H3 & H4 & H5)].
+    split; [rewrite H1, K1; reflexivity|].
+    exists ((ty, off, sz) :: es). rewrite H2, K2. cbn [add_sec m_secs]. rewrite <- app_assoc.
+    repeat split; [simpl; lia| |].
+    + constructor; [|exact H4]. unfold sec_checked. cbn [fst snd]. pose proof (u32_le (off + sz)). lia.
+    + constructor; [|exact H5]. unfold section_complete. cbn [fst snd]. rewrite <- Hsz. split; [exact Hfit|].
+      assert (Ls : len (slice data off sz) = sz) by (apply slice_len; rewrite <- Hsz; exact Hfit).
+      rewrite <- Ls in A at 2.
+      apply (apply_section_complete ty _ (add_sec m (ty, off, sz)) m2); [unfold slice; apply bytes_ok_firstn, bytes_ok_skipn, Hok| |exact A].
+      rewrite Ls. apply rd32_lt. exact Hok.
 Qed.
 
 (* a module comes back only if magic, version, section count, checksum and directory bound were right AND every
@@ -975,9 +1179,19 @@ Theorem load_all_or_nothing0 data m : deserialize0 data = Loaded m ->
   length (m_secs m) = N.to_nat (h_nsec (header_of data)) /\ Forall (sec_checked (len data)) (m_secs m).
 Proof.
   intros H. destruct (deserialize_inv data) as [E|[P E]]; [rewrite E in H; discriminate|].
-  rewrite E in H. destruct (load_sections_all _ _ _ _ _ _ H) as [H1 (es & H2 & H3 & H4)].
+  rewrite E in H. destruct (load_sections_basic _ _ _ _ _ _ H) as [H1 (es & H2 & H3 & H4)].
   cbn [set_hdr empty_module m_hdr m_secs app] in *.
   split; [exact P|]. split; [exact H1|]. rewrite H2. split; assumption.
+Qed.
+
+(* a loaded file's sections are complete: each lies inside the file, every entry lies inside its section and no byte
+   of a table section is left over (the section bytes ARE the serialisation of a list of entries) *)
+Theorem load_complete_sections0 data m : bytes_ok data -> deserialize0 data = Loaded m ->
+  Forall (section_complete data) (m_secs m).
+Proof.
+  intros Hok H. destruct (deserialize_inv data) as [E|[P E]]; [rewrite E in H; discriminate|].
+  rewrite E in H. destruct (load_sections_all _ _ _ _ _ _ Hok eq_refl H) as [_ (es & H2 & _ & _ & H5)].
+  cbn [set_hdr empty_module m_secs app] in H2. rewrite H2. exact H5.
 Qed.
 
 Theorem extension_refuted_general0 m : wf_module m ->
@@ -1171,3 +1385,7 @@ Proof.
   intros R Wf. destruct (extension_refuted_general0 m Wf) as [L E]. split; [exact L|].
   rewrite (deserialize_of_stamp m _ (wf_unpack m Wf) E), R. reflexivity.
 Qed.
+
+Theorem load_complete_sections data m : bytes_ok data -> deserialize data = Loaded m ->
+  Forall (section_complete data) (m_secs m).
+Proof. intros Hok H. exact (load_complete_sections0 data m Hok (deserialize_loaded data m H)). Qed.
